@@ -215,12 +215,22 @@ def finish(report: Report, seed: int = 0) -> int:
     }
     viol = [o for o in report.obls if o.verdict == VIOLATED]
     und = [o for o in report.obls if o.verdict == UNDECIDED]
-    new_viol = [o for o in viol if o.key() not in known]
+    new_viol_all = [o for o in viol if o.key() not in known]
+    new_viol, _seen = [], {}
+    for o in new_viol_all:  # one report per (rule, construct); count the instances
+        if o.key() in _seen:
+            _seen[o.key()].detail += ""
+            _seen[o.key()]._n = getattr(_seen[o.key()], "_n", 1) + 1  # type: ignore[attr-defined]
+            continue
+        _seen[o.key()] = o
+        new_viol.append(o)
     listed = [o for o in viol if o.key() in known]
     floor_fail = [(w, g, f) for (w, g, f) in report.floors if g < f]
 
     evdir = VERIF_ROOT / "evidence"
     (evdir / "replay").mkdir(parents=True, exist_ok=True)
+    for old in (evdir / "replay").glob(f"{prop}-*.json"):
+        old.unlink()
 
     replay_paths = []
     for i, o in enumerate(new_viol):
@@ -233,6 +243,7 @@ def finish(report: Report, seed: int = 0) -> int:
                     "construct": o.construct,
                     "where": o.where,
                     "detail": o.detail,
+                    "instances": getattr(o, "_n", 1),
                     "extracted": o.extracted,
                     "expected": o.expected,
                     "repo_root": str(REPO_ROOT),
